@@ -58,7 +58,7 @@ class Fn:
     """one function to translate: where it is, how its parameters are typed"""
 
     def __init__(self, qualname, params=None, ret=None, self_attrs=None, enum_attrs=None, fuel=None, lean_name=None,
-                 err=None, consts=None, fn_params=None, const_calls=None, opaque_fns=None):
+                 err=None, consts=None, fn_params=None, const_calls=None, opaque_fns=None, const_exprs=None):
         self.qualname = qualname                  # "Class.method" or "function"
         self.params = params or {}                # python parameter name -> "Int" | "Rat" | "Bool" (overrides annotations)
         self.ret = ret                            # Lean return type, e.g. "Int", "Rat", "Int × Int"
@@ -71,6 +71,7 @@ class Fn:
         self.fn_params = fn_params or {}          # python callable name (e.g. "np.exp") -> Lean parameter name of type Rat → Rat
         self.const_calls = const_calls or {}      # normalised text of a call expression -> (Lean parameter name, type)
         self.opaque_fns = opaque_fns or {}        # python callable (e.g. "self._theta") -> (Lean parameter name, [arg types], ret type)
+        self.const_exprs = const_exprs or {}      # normalised text of any expression (e.g. "a==-np.inf") -> (Lean parameter name, type)
 
 
 class Unit:
@@ -88,6 +89,7 @@ class _Tr(ast.NodeVisitor):
         self.extra_params: list[tuple[str, str]] = []   # (lean name, type) discovered in the body (self attrs, enum tests)
         self.recursive = False
         self.tmp = 0
+        self.alias: dict[str, str] = {}           # local name -> dotted object path it stands for (e.g. params -> self.parameters)
 
     # ---- helpers -------------------------------------------------------------------------------------------------
     def bad(self, node, why):
@@ -128,6 +130,12 @@ class _Tr(ast.NodeVisitor):
 
     # ---- expressions: return (lean string, type) -----------------------------------------------------------------
     def expr(self, e) -> tuple[str, str]:
+        if self.fn.const_exprs:
+            key = _norm_expr(e)
+            if key in self.fn.const_exprs:
+                nm, ty = self.fn.const_exprs[key]
+                self.add_param(nm, ty)
+                return nm, ty
         if isinstance(e, ast.Constant):
             v = e.value
             if isinstance(v, bool):
@@ -148,6 +156,9 @@ class _Tr(ast.NodeVisitor):
             self.bad(e, f"free name {e.id}")
         if isinstance(e, ast.Attribute):
             dotted = _dotted(e)
+            if dotted and dotted.split(".")[0] in self.alias:
+                root, _, rest = dotted.partition(".")
+                dotted = self.alias[root] + "." + rest
             if dotted and dotted in self.fn.consts:
                 return self.fn.consts[dotted]
             if dotted and dotted.startswith("self.") and dotted[5:] in self.fn.self_attrs and "." in dotted[5:]:
@@ -330,7 +341,16 @@ class _Tr(ast.NodeVisitor):
                     parts.append(nm)
                 if cand == self.fn.qualname:
                     self.recursive = True
-                    return "(" + " ".join([callee.lean_name + "_fuel", "fuel"] + parts) + ")", sig["ret"]
+                    # the extra parameters of the function being translated are only known at the end: placeholder, filled
+                    # in by `_signature`.  A flag that describes one python parameter (e.g. `a==-np.inf`) is passed on only
+                    # when that parameter is passed on unchanged; a different (Rat-valued, hence finite) argument makes it false.
+                    over = {}
+                    for key, (nm, ty) in self.fn.const_exprs.items():
+                        for (pn, _), arg in zip(sig["py_params"], e.args):
+                            if pn in key and not (isinstance(arg, ast.Name) and arg.id == pn) and ty == BOOL:
+                                over[nm] = "false"
+                    tag = "⟪EXTRA" + "".join(f"|{k}={v}" for k, v in sorted(over.items())) + "⟫"
+                    return "(" + " ".join([callee.lean_name + "_fuel", "fuel"] + parts + [tag]) + ")", sig["ret"]
                 head = callee.lean_name
                 return "(" + " ".join([head] + parts) + ")", sig["ret"]
         self.bad(e, f"call of {name}")
@@ -368,6 +388,10 @@ class _Tr(ast.NodeVisitor):
         return None
 
     def prop(self, e) -> str:
+        if self.fn.const_exprs and _norm_expr(e) in self.fn.const_exprs:
+            nm, ty = self.fn.const_exprs[_norm_expr(e)]
+            self.add_param(nm, ty)
+            return f"({nm} = true)" if ty == BOOL else f"({nm} ≠ 0)"
         et = self.enum_test(e)
         if et is not None:
             return et
@@ -432,6 +456,15 @@ class _Tr(ast.NodeVisitor):
                 self.bad(s, "chained assignment")
             tgt = s.targets[0]
             if isinstance(tgt, ast.Name):
+                dv = _dotted(s.value) if isinstance(s.value, (ast.Attribute, ast.Name)) else None
+                if dv and dv.split(".")[0] in self.alias:
+                    dv = self.alias[dv.split(".")[0]] + dv[len(dv.split(".")[0]):]
+                if dv and dv.startswith("self.") and any(k.startswith(dv[5:] + ".") for k in self.fn.self_attrs):
+                    saved_alias = dict(self.alias)            # an object alias (params = self.parameters): no value to bind
+                    self.alias[tgt.id] = dv
+                    body = self.block(rest, [])
+                    self.alias = saved_alias
+                    return body
                 v, t = self.expr(s.value)
                 if t == NUM:
                     v, t = f"({v} : Int)", INT
@@ -491,6 +524,13 @@ def _dotted(e):
         parts.append(e.id)
         return ".".join(reversed(parts))
     return None
+
+
+def _norm_expr(e) -> str:
+    try:
+        return ast.unparse(e).replace(" ", "").replace("numpy.", "np.").replace("+np.inf", "np.inf")
+    except Exception:
+        return ""
 
 
 def _norm_call(e: ast.Call) -> str:
@@ -560,8 +600,16 @@ def _signature(unit: Unit, fn: Fn):
     finally:
         fn.ret = saved_ret
     order = ["self_" + a.replace("._", "_").replace(".", "_").lstrip("_") for a in fn.self_attrs] \
-        + [nm for nm, _ in fn.const_calls.values()] + [nm for nm, _, _ in fn.opaque_fns.values()] + list(fn.fn_params.values())
+        + [nm for nm, _ in fn.const_calls.values()] + [nm for nm, _ in fn.const_exprs.values()] \
+        + [nm for nm, _, _ in fn.opaque_fns.values()] + list(fn.fn_params.values())
     sig["extra"] = sorted(tr.extra_params, key=lambda nt: (order.index(nt[0]) if nt[0] in order else len(order), nt[0]))
+    import re as _re
+
+    def _fill(m):
+        over = dict(kv.split("=") for kv in m.group(1).split("|") if kv)
+        txt = " ".join(over.get(n, n) for n, _ in sig["extra"])
+        return (" " + txt) if txt else ""
+    body = _re.sub(r" ?⟪EXTRA((?:\|[^⟫|]+)*)⟫", _fill, body)
     sig["body"] = body
     sig["recursive"] = tr.recursive
     return sig
